@@ -1,2 +1,52 @@
-"""Per-property texts and extra assumptions for the evidence files."""
-PROPS = {}
+"""Per-property texts, assumptions and claim status (source of MANIFEST.json)."""
+
+LOCALITY = ("byte-range locality: a contract proved for separately allocated exact-size buffers (is_fresh) is applied "
+            "to disjoint byte ranges inside larger objects (sub-ranges of bulk buffers, the tweak field next to the "
+            "schedule); justified by the proved assigns frames, not machine-checked")
+COMPOSE = ("composition of per-function contracts into the end-to-end statement (callee replaced by contract at each "
+           "call site; ghost witness indices VG_J / VG_W are arbitrary, hence universally quantified)")
+
+PROPS = {
+    "C01": {
+        "claimed": True,
+        "technique": "CBMC function + loop contracts (dfcc), ghost lock-step with generated spec rounds",
+        "text": "SKINNY-128 and SKINNY-64 set_key (TK1 closed form, TK2/TK3 ghost lock-step, round counts, call log) and "
+                "ecb_encrypt/ecb_decrypt (loop contract: real state == ghost state advanced by the paper's round / explicit "
+                "inverse round, round keys read from the schedule) proved for all keys, blocks, round counts <= MAX.",
+        "assumptions": [COMPOSE,
+                        "TK2/TK3: the ghost program (cells := key bytes ++ zeros; each round emit rows 0,1 then PT then LFSR) is the "
+                        "specification's tweakey schedule; its value at the witness round is exported as VG_SNAP2/3"],
+    },
+    "C02": {
+        "claimed": True,
+        "technique": "CBMC function + loop contracts (dfcc), ghost lock-step with generated MANTIS steps",
+        "text": "mantis_ecb_crypt and mantis_ecb_crypt_tweaked: both loops in lock-step with the paper's MANTIS-r steps for every "
+                "rounds <= 8, key material, tweak and block; mantis_set_key / set_tweak: schedule fields as the paper defines "
+                "(k0, k1, k0', alpha, zero tweak), rounds 5..8 and 16-byte keys only.",
+        "assumptions": [COMPOSE,
+                        "decryption is DEFINED by the paper as the same circuit under (k0', k0, k1^alpha); that this is the inverse "
+                        "permutation is a property of MANTIS (alpha-reflection), cross-checked natively on the published vectors"],
+    },
+    "C04": {
+        "claimed": True,
+        "technique": "CBMC function contracts over an abstract view (key part, tweak) of the tweakable schedule",
+        "text": "set_tweaked_key: zero tweak, rounds, schedule[J] = TK1_J(tweak) ^ domain bit ^ rc_J ^ TK2_J ^ TK3_J; set_tweak: "
+                "key part schedule[J] ^ TK1_J(stored tweak) unchanged and stored tweak == new bytes ++ zeros (NULL: zeros) for every "
+                "prior tweak and every length, so the post-state is a function of (key, latest tweak) only; CTR tweak API delegates.",
+        "assumptions": [COMPOSE, LOCALITY, "history independence for arbitrary sequences follows by induction over calls (meta)"],
+    },
+    "C10": {
+        "claimed": True,
+        "technique": "CBMC function contracts, symbolic key length over the full unsigned range",
+        "text": "return value == (pointers non-NULL && length in range) for every unsigned length, empty frame on rejection, and for "
+                "accepted lengths the unpacked tweakey is REQUIRED to equal key bytes followed by zeros (loop invariants of set_tk2/3).",
+        "assumptions": [COMPOSE],
+    },
+    "C14": {
+        "claimed": False,
+        "reason": "under construction",
+    },
+}
+
+for i in range(1, 21):
+    PROPS.setdefault("C%02d" % i, {"claimed": False, "reason": "not claimed yet: check under construction (see DESIGN.md)"})
